@@ -368,7 +368,94 @@ setup:
     vf_fail(r, "scenario-setup", "re-solve failed");
 }
 
-#define NSCEN 14
+/*
+ * Solves whose closed-form path is exactly degenerate: TRL on a perfect
+ * instrument (the measurements equal the S-parameters of the standards)
+ * with a quarter-wave and with an arbitrary line.  Whether such a system is
+ * solved or refused is not what is judged here: a solve that reports success
+ * has not called the error function, one that fails has called it exactly
+ * once with EDOM.
+ */
+static void sc_degenerate_trl(int which, vf_result *r)
+{
+    static const vnacal_type_t tt[4] = { VNACAL_T8, VNACAL_U8, VNACAL_TE10,
+	VNACAL_UE10 };
+    fx_t *F = &c3_F;
+    vnacal_type_t type = tt[which % 4];
+    int quarter = which / 4 == 0;
+    const char *tn = vnacal_type_to_name(type);
+    double complex rr = -0.95 + 0.05 * I;
+    double complex ll = quarter ? -I : 0.8 * cexp(-0.9 * I);
+    double complex m[4][NF];
+    double complex *mp[4] = { m[0], m[1], m[2], m[3] };
+    char sig[120];
+    vnacal_new_t *vnp;
+    int pr, pl;
+
+    vf_desc(r, "%s 2x2 TRL on a perfect instrument, %s line: callbacks and "
+	    "return value of vnacal_new_solve must agree", tn, quarter ?
+	    "quarter-wave" : "arbitrary");
+    vnp = vnacal_new_alloc(F->vcp, type, 2, 2, NF);
+    pr = vnacal_make_unknown_parameter(F->vcp, VNACAL_SHORT);
+    pl = vnacal_make_unknown_parameter(F->vcp,
+	    vnacal_make_scalar_parameter(F->vcp, ll * (0.97 + 0.02 * I)));
+    if (vnp == NULL || pr < 0 || pl < 0 ||
+	    vnacal_new_set_frequency_vector(vnp, F->f3) != 0) {
+	vf_fail(r, "scenario-setup", "TRL set-up failed");
+	return;
+    }
+#define FILL(a, b, c, d) do { for (int k = 0; k < NF; ++k) { \
+	m[0][k] = (a); m[1][k] = (b); m[2][k] = (c); m[3][k] = (d); } \
+    } while (0)
+    FILL(0, 1, 1, 0);
+    if (vnacal_new_add_through_m(vnp, mp, 2, 2, 1, 2) != 0)
+	goto setup;
+    FILL(rr, 0, 0, rr);
+    if (vnacal_new_add_double_reflect_m(vnp, mp, 2, 2, pr, pr, 1, 2) != 0)
+	goto setup;
+    FILL(0, ll, ll, 0);
+    {
+	int s4[4] = { VNACAL_MATCH, pl, pl, VNACAL_MATCH };
+	if (vnacal_new_add_line_m(vnp, mp, 2, 2, s4, 1, 2) != 0)
+	    goto setup;
+    }
+#undef FILL
+    vf_errlog_reset(&F->elog);
+    errno = 0;
+    int rc = vnacal_new_solve(vnp);
+    int e = errno;
+    ++r->transitions;
+    if (rc == 0) {
+	if (F->elog.nonwarn != 0) {
+	    snprintf(sig, sizeof(sig), "callback-on-success:solve:%s", tn);
+	    vf_fail(r, sig, "vnacal_new_solve returned 0 after invoking the "
+		    "error function %d time(s): %s", F->elog.nonwarn,
+		    F->elog.msg[0]);
+	}
+    } else if (rc == -1) {
+	if (e != EDOM) {
+	    snprintf(sig, sizeof(sig), "solve-errno:%s", tn);
+	    vf_fail(r, sig, "failed with errno %d, not EDOM: %s", e,
+		    F->elog.count ? F->elog.msg[0] : "");
+	}
+	if (F->elog.nonwarn != 1 || F->elog.bad_format) {
+	    snprintf(sig, sizeof(sig), "solve-callback:%s", tn);
+	    vf_fail(r, sig, "failed vnacal_new_solve invoked the error "
+		    "function %d times", F->elog.nonwarn);
+	}
+    } else {
+	vf_fail(r, "retval:vnacal_new_solve", "returned %d", rc);
+    }
+    r->nontrivial = 1;
+    vf_outcome(r, "degenerate TRL %s: %s", tn, rc == 0 ? "solved" :
+	    "refused");
+    return;
+setup:
+    vf_fail(r, "scenario-setup", "TRL standard rejected: %s",
+	    F->elog.count ? F->elog.msg[0] : "");
+}
+
+#define NSCEN 22
 static void run_scenario(int k, vf_result *r)
 {
     const char *err;
@@ -389,6 +476,9 @@ static void run_scenario(int k, vf_result *r)
     case 4: sc_retry(&c3_scB, 2, 0, r); break;
     case 5: sc_rejected_add(r); break;
     case 6: sc_indices(r); break;
+    case 13: case 14: case 15: case 16: case 17: case 18: case 19: case 20:
+	sc_degenerate_trl(k - 13, r);
+	break;
     default: sc_vnadata(k - 7, r); break;
     }
     fx_teardown(&c3_F);
